@@ -592,6 +592,11 @@ func (p *Polygon) RectBound() Rect { return p.bound }
 
 // ContainsPoint reports whether the polygon contains the point.
 func (p *Polygon) ContainsPoint(point Point) bool {
+	// The empty polygon (in particular the zero value, which has no index)
+	// contains nothing.
+	if p.IsEmpty() {
+		return false
+	}
 	// NOTE: A bounds check slows down this function by about 50%. It is
 	// worthwhile only when it might allow us to delay building the index.
 	if !p.index.IsFresh() && !p.bound.ContainsPoint(point) {
@@ -616,6 +621,9 @@ func (p *Polygon) ContainsPoint(point Point) bool {
 
 // ContainsCell reports whether the polygon contains the given cell.
 func (p *Polygon) ContainsCell(cell Cell) bool {
+	if p.IsEmpty() {
+		return false
+	}
 	it := p.index.Iterator()
 	relation := it.LocateCellID(cell.ID())
 
@@ -640,6 +648,9 @@ func (p *Polygon) ContainsCell(cell Cell) bool {
 
 // IntersectsCell reports whether the polygon intersects the given cell.
 func (p *Polygon) IntersectsCell(cell Cell) bool {
+	if p.IsEmpty() {
+		return false
+	}
 	it := p.index.Iterator()
 	relation := it.LocateCellID(cell.ID())
 
